@@ -13,6 +13,7 @@ func init() {
 	replayers["(*Raft).verifyLeader"] = replayVerifyLeader
 	replayers["(*Raft).appendEntries"] = replayAppendEntries
 	replayers["(*Raft).installSnapshot"] = replayInstallSnapshot
+	replayers["NewRaft"] = replayNewRaft
 }
 
 func mInt(m map[string]string, k string, def int64) int64 {
@@ -355,6 +356,46 @@ func TestGovcReplay(t *testing.T) {
 	r.appendEntries(RPC{Command: ae, RespChan: respCh2}, ae)
 	if !(<-respCh2).Response.(*AppendEntriesResponse).Success {
 		t.Fatalf("handshake violated: InstallSnapshot(10/3) succeeded, yet AppendEntries with previous entry 10/3 is rejected (last entry still %d/%d)", li, lt)
+	}
+}
+`
+	return "TestGovcReplay", test, true
+}
+
+// NewRaft: restart with RestoreCommittedLogs and a configuration entry at or below the staged commit index.
+func replayNewRaft(m map[string]string, o *Oblig) (string, string, bool) {
+	if !strings.Contains(o.Name, "config_scan_covers_log") {
+		return "", "", false
+	}
+	test := `package raft
+
+import "testing"
+
+func TestGovcReplay(t *testing.T) {
+	store := NewInmemCommitTrackingStore()
+	cfg := Configuration{Servers: []Server{{Suffrage: Voter, ID: "me", Address: "me"}, {Suffrage: Voter, ID: "b", Address: "b"}}}
+	logs := []*Log{
+		{Index: 1, Term: 1, Type: LogConfiguration, Data: EncodeConfiguration(cfg)},
+		{Index: 2, Term: 1, Type: LogCommand, Data: []byte("x")},
+		{Index: 3, Term: 1, Type: LogCommand, Data: []byte("y")},
+	}
+	if err := store.StoreLogs(logs); err != nil {
+		t.Fatal(err)
+	}
+	_ = store.StageCommitIndex(2)
+	_ = store.SetUint64(keyCurrentTerm, 1)
+	conf := DefaultConfig()
+	conf.LocalID = "me"
+	conf.skipStartup = true
+	conf.RestoreCommittedLogs = true
+	_, trans := NewInmemTransport("me")
+	r, err := NewRaft(conf, &MockFSM{}, store, store, NewInmemSnapshotStore(), trans)
+	if err != nil {
+		t.Fatal(err)
+	}
+	t.Logf("after restart: lastApplied=%d commitIndex=%d latest configuration (index %d) = %+v", r.getLastApplied(), r.getCommitIndex(), r.configurations.latestIndex, r.configurations.latest.Servers)
+	if len(r.configurations.latest.Servers) != 2 || r.configurations.latestIndex != 1 {
+		t.Fatalf("config_scan_covers_log violated: the configuration entry at index 1 (<= replayed commit index 2) was skipped by the start-up scan; the server restarted with configuration %+v", r.configurations.latest.Servers)
 	}
 }
 `
